@@ -127,6 +127,13 @@ where
                 if nullable {
                     new_ctx.or(&new_is.items[&(pidx, dot)]);
                 }
+                // No token can follow `s_ridx` here (the rest of the production derives no
+                // sentence): in LR(1) terms there is no item to add. Adding the productions with
+                // an empty set of lookaheads would give the state shifts that no input can ever
+                // reach and, with them, spurious conflicts.
+                if new_ctx.iter_set_bits(..).next().is_none() {
+                    continue;
+                }
 
                 for ref_pidx in grm.rule_to_prods(s_ridx).iter() {
                     if new_is.add(*ref_pidx, SIdx(StorageT::zero()), &new_ctx) {
